@@ -227,7 +227,7 @@ class Monitor:
 
 
 SCENARIOS = ["ns2d", "ns3d", "passive2d", "passive3d_scalar", "passive3d_vector", "poisson2d", "poisson3d",
-             "filter", "ssprk3", "interaction2d", "interaction3d"]
+             "filter", "ssprk3", "interaction2d", "interaction3d", "coupled_bodies2d"]
 
 
 def _scenario_variants(tier):
@@ -323,6 +323,35 @@ def _run_scenario(case, ctx, threads=2):
         u = gen.build_vector_field(F[3:6], shape, real_t)
         fl = np.zeros_like(w)
         return (lambda: k(vorticity_field=w, velocity_field=u, vorticity_stretching_flux_field=fl, dt_by_2_dx=0.05)), {"vorticity": w}
+    if sc == "coupled_bodies2d":
+        # two rigid bodies coupled to one flow through the public interaction classes, which are handed the thread count
+        import sopht.simulator.immersed_body as spi
+        from .. import bodies as _bodies
+
+        dx = 0.0625
+        gshape = (28, 32)
+        eul_u = gen.build_vector_field(F[:2], gshape, real_t)
+        eul_f = gen.build_vector_field(F[3:5], gshape, real_t)
+        inters = []
+        for bi in range(2):
+            body = _bodies.make_rigid("cylinder2d", {"radius": 0.2 + 0.05 * bi, "length": 0.5, "breadth": 0.5})
+            body.position_collection[:, 0] = [0.6 + 0.7 * bi + 0.1 * case["marker_pos"][bi], 0.8 + 0.1 * case["marker_pos"][2 + bi], 0.0]
+            body.velocity_collection[:, 0] = [0.3 * case["marker_pos"][4 + bi], -0.2, 0.0]
+            body.omega_collection[:, 0] = [0.0, 0.0, 1.0 + bi]
+            inters.append(spi.RigidBodyFlowInteraction(
+                rigid_body=body, eul_grid_forcing_field=eul_f, eul_grid_velocity_field=eul_u, virtual_boundary_stiffness_coeff=-50.0,
+                virtual_boundary_damping_coeff=-2.0, dx=real_t(dx), grid_dim=2, real_t=real_t, num_threads=threads,
+                forcing_grid_cls=spi.CircularCylinderForcingGrid, num_forcing_points=33))
+
+        def run():
+            for it in inters:
+                it()
+            for it in inters:
+                it.time_step(dt=0.01)
+            for it in inters:
+                it()
+
+        return run, {"eul_forcing": eul_f, "lag_forcing_0": inters[0].lag_grid_forcing_field, "lag_forcing_1": inters[1].lag_grid_forcing_field}
     if sc.startswith("interaction"):
         n = case["n_markers"]
         dx = 0.1
